@@ -1603,6 +1603,25 @@ func (c *immuClient) VerifiedTxByID(ctx context.Context, tx uint64) (*schema.Tx,
 		}
 	}
 
+	// the returned transaction (header and entries) must be the one whose
+	// accumulated hash was just proven: the dual proof carries its own headers
+	if vTx.Tx == nil || vTx.Tx.Header == nil || int(vTx.Tx.Header.Nentries) != len(vTx.Tx.Entries) {
+		return nil, store.ErrCorruptedData
+	}
+
+	provenAlh := targetAlh
+	if state.TxId > tx {
+		provenAlh = sourceAlh
+	}
+
+	// entries digest is re-calculated from the returned entries
+	rtx := schema.TxFromProto(vTx.Tx)
+	if rtx.Header().ID != tx ||
+		rtx.Header().Eh != schema.DigestFromProto(vTx.Tx.Header.EH) ||
+		rtx.Header().Alh() != provenAlh {
+		return nil, store.ErrCorruptedData
+	}
+
 	err = c.StateService.SetState(c.Options.CurrentDatabase, newState)
 	if err != nil {
 		return nil, err
